@@ -185,25 +185,45 @@ claim("C18", "Lean 4 theorems about a reverse-mode (vjp) model over ASTs regener
       _TB + " Model/Ad.lean's cotangent rules are a hand model of JAX autodiff (validated, not proved); EF has exact finite arithmetic: overflow (exp of large arguments), rounding "
       "and signed zeros are outside the model and covered by the correspondence/oracle only; network conditioners and whole factories are covered by the oracle only.", "DESIGN.md §5 C18")
 
-claim("C15", "Lean 4 theorems (all n, batch sizes, split sizes, permutations, epochs) about a hand-written index-flow/key-schedule model + exact call-by-call correspondence with the real fit_to_data",
+claim("C15", "Lean 4 theorems (all n, batch sizes, split sizes, permutations, epochs) about an index-flow/key-schedule model, proved equal to the loops REGENERATED from the source on every run (py2loop) + exact call-by-call correspondence of both with the real fit_to_data",
       "For every dataset size n, every 0 < n_val < n, every batch_size >= 1, every number of epochs and EVERY family of permutations standing for "
       "jr.permutation: train and validation parts partition the dataset; each array is the image of one index run (x and condition rows stay paired); "
       "per epoch no row is used twice, exactly the last n_train mod b' rows of that epoch's order are skipped (< one batch); validation rows never "
       "reach a gradient step; batch counts and shapes; all consumed keys are distinct nodes of the split tree and none is split again; the run is a "
       "function of the permutations at its shuffle keys. The real fit_to_data is compared call by call (rows of every array, key, train/val, order) "
-      "with the model on the permutations JAX draws for the model's key paths.",
-      _TB2 + " Key distinctness is proved for tree paths and for any split that is injective in (parent, index) and never returns the root; that "
+      "with the model on the permutations JAX draws for the model's key paths. "
+      "Second tie (regeneration): tools/py2lean/py2loop.py translates _add_batch, get_batches, train_val_split, step and fit_to_data statement by statement "
+      "(it refuses what it does not understand) into Gen/TrainGen.lean — Python ints as Int with floor division and negative slices, the three loops as folds of "
+      "generated body functions over generated state structures, the library calls as fields of an abstract World (permutation per key, loss function, optimiser; "
+      "abstract parameter type). Proved for every world, array, batch size, key: generated _add_batch / get_batches = the model's (raises iff min(b,len)=0); "
+      "generated train_val_split on arrays of n rows with round(val_prop*n) = r <= n = the model's split of every array with the same permutation (sizes n-r and r); "
+      "one generated epoch in closed form over the model's pieces; the generated run seen from x and from condition is the model's run on that array with the same "
+      "permutations and keys (so every theorem above, and alignment, hold of the generated loops); early stopping does not change the data flow of the epochs run. "
+      "The generated definitions are also executed against the real ones: _add_batch/get_batches (n<=40 x 11 batch sizes incl. > n, one and two arrays), train_val_split "
+      "(n<=40 x 18 val_prop incl. ties and out-of-range, rows and sizes under JAX's permutation), and the generated fit_to_data in a recording world (each loss value "
+      "is an injective code of the call producing it) call by call against every real run.",
+      _TB2 + " py2loop.py, its typing sheet targets_train.py and the primitive specs of Model/TrainWorld.lean are trusted and validated by running the generated "
+      "definitions against the real ones on every check. Key distinctness is proved for tree paths and for any split that is injective in (parent, index) and never returns the root; that "
       "threefry is such a function is assumed (observed per run). n_val = round(val_prop*n) is an input of the theorems; its float rounding is checked by the correspondence.",
       "DESIGN.md §5 C15")
 
-claim("C16", "Lean 4 theorems (all loss sequences of pairwise-distinct values of any length, all patience/max values) about loop models as folds + exhaustive correspondence with the real loops under a scripted loss and a counting optimiser",
+claim("C16", "Lean 4 theorems (all loss sequences of pairwise-distinct values of any length, all patience/max values) about loop models as folds, proved equal to the loops REGENERATED from the source on every run (py2loop) + exhaustive correspondence of both with the real loops under a scripted loss and a counting optimiser",
       "fit_to_data: at most max_epochs epochs; it stops after the first epoch e with e - argmin(val[0..e]) > max_patience and at no earlier epoch, else runs "
       "max_epochs; one train and one validation loss per epoch run; return_best returns the parameters after the epoch of minimum validation loss, otherwise "
       "the last; max_epochs = 0 returns the initial parameters. fit_to_variational_target: exactly `steps` steps, one loss per step, return_best returns the "
       "pre-update parameters of the argmin step (the parameters the minimum loss was evaluated at). The pre-0ab1adc behaviour (post-update parameters) is "
       "proved to violate this on [1,4,16,64]. Real loops are compared with the model on every permutation of 1..L (L<=5 quick, <=6 thorough, a random half of L=7 at "
-      "sampled settings) x patience x max x return_best, jit enabled and disabled, single- and multi-batch epochs.",
-      _TB2 + " Ties and NaN losses are outside the property's quantifier (the model resolves ties as the code does, unproved).", "DESIGN.md §5 C16")
+      "sampled settings) x patience x max x return_best, jit enabled and disabled, single- and multi-batch epochs. "
+      "Second tie (regeneration): count_fruitless, step, fit_to_data (epoch body with the best_params bookkeeping `losses['val'][-1] == min(...)`, the stopping test "
+      "`elif count_fruitless(...) > max_patience: break`, the final selection) and fit_to_variational_target (`best_params = params` before `params = new_params`, "
+      "selection) are regenerated by tools/py2lean/py2loop.py into Gen/TrainGen.lean and proved, for every world (loss function, optimiser, abstract parameters), data, "
+      "key and configuration: generated count_fruitless = the model's on non-empty lists (raises iff empty); one generated epoch performs exactly the model's step "
+      "(append one train and one validation loss; best_params := post-epoch parameters iff the new loss is the minimum; else break iff count_fruitless > max_patience; a "
+      "broken loop is frozen); the generated fit_to_data returns the model's loss lists and the parameters after `returned` epochs on the loss scripts the run itself "
+      "produces (lock-step simulation); likewise the variational loop step by step; the main claims are restated on the generated functions. A change of `>` to `>=`, of "
+      "`best_params = params` to `new_params`, of the selection expression, or of `//` to a ceiling breaks a named proof; a `for … else` is refused by the translator. "
+      "Every history is also run through the generated definitions (driver ops gcfruit/gfit/gvi) against the real functions.",
+      _TB2 + " py2loop.py, its typing sheet and Model/TrainWorld.lean (meaning of the library calls) are trusted and validated by those runs. Ties and NaN losses are outside the property's quantifier (the model resolves ties as the code does, unproved).", "DESIGN.md §5 C16")
 
 claim("C04", "Lean 4 theorems (Mathlib change of variables) about definitions regenerated from the source (py2lean) and hand models of the network bijections + Float correspondence; quadrature/KS oracle on the real code when a tie breaks",
       "PARTIAL. Proved: the change-of-variables density preserves total mass and is the law of the transformed sample (finite-dimensional — everywhere differentiable or with finitely many measurable pieces —, 1-D, and 1-D with finitely many kinks); "
